@@ -787,11 +787,13 @@ Eval(e, env, log) ==
                        ELSE IF f = "take" THEN t
                        ELSE IF t.v[2] # <<>> THEN R(t.v[2][1], t.log) ELSE R(ErrV, t.log)
                \* a lazy select/where consumed through take/limit/first: the lambda runs only for the elements consumed
-               ELSE IF f \in {"take", "limit", "first"} /\ e[2][1] = "mcall" /\ e[2][3] \in {"select", "where"} /\ Len(e[2][4]) = 1
-                       /\ (f = "first" \/ (Len(e[4]) = 1 /\ e[4][1][1] = "const" /\ e[4][1][2][1] = "i" /\ e[4][1][2][2] >= 0)) /\ Len(e[4]) <= 1 THEN
+               \* (any() without a predicate asks for one element, like first())
+               ELSE IF f \in {"take", "limit", "first", "any"} /\ e[2][1] = "mcall" /\ e[2][3] \in {"select", "where"} /\ Len(e[2][4]) = 1
+                       /\ (f = "first" \/ (f = "any" /\ e[4] = <<>>) \/ (f \in {"take", "limit"} /\ Len(e[4]) = 1 /\ e[4][1][1] = "const" /\ e[4][1][2][1] = "i" /\ e[4][1][2][2] >= 0))
+                       /\ Len(e[4]) <= 1 THEN
                     LET src == Eval(e[2][2], env, log)
                         clo == <<"lam", e[2][4][1], env>>
-                        k == IF f = "first" THEN 1 ELSE e[4][1][2][2]
+                        k == IF f \in {"first", "any"} THEN 1 ELSE e[4][1][2][2]
                         dflt == IF f = "first" /\ Len(e[4]) = 1 THEN Eval(e[4][1], env, src.log) ELSE R(Null, src.log)
                         RECURSIVE LT(_, _, _, _)
                         LT(xs, kk, lg, acc) ==
@@ -805,6 +807,7 @@ Eval(e, env, log) ==
                        ELSE IF IsErr(dflt.v) THEN dflt
                        ELSE LET t == LT(src.v[2], k, dflt.log, <<>>)
                             IN IF IsErr(t.v) THEN t
+                               ELSE IF f = "any" THEN R(B(t.v[2] # <<>>), t.log)
                                ELSE IF f # "first" THEN t
                                ELSE IF t.v[2] # <<>> THEN R(t.v[2][1], t.log)
                                ELSE IF Len(e[4]) = 1 THEN R(dflt.v, t.log) ELSE R(ErrV, t.log)
